@@ -18,15 +18,24 @@ open XmppModel XmppModel.Jid
 
 /-! ### Tie to the source: regenerated facts -/
 
-/-- the forbidden localpart characters read from `localChecks` are the model's -/
+/-- the bytes for which the real `New` / `WithLocal` reject a localpart that PRECIS accepts
+(probe over every ASCII character and every fullwidth form, in four positions) are the
+model's forbidden set -/
 theorem C11_gen_forbidden : Generated.C11.forbidden = some forbidden := by decide
 
-/-- the three length limits read from the source are the model's `maxPart` (and the domain's
-lower bound 1; `>1` is the bracket test of the IPv6 branch) -/
+/-- … and on the whole probed domain (every byte PRECIS can produce from those inputs) the real
+code rejects exactly where the model's `hasForbidden` does; the domain contains every
+forbidden character -/
+theorem C11_gen_local_bytes :
+    ∃ t, Generated.C11.localByteProbe = some t ∧
+      (∀ e ∈ t, e.2 = hasForbidden [e.1]) ∧ (∀ c ∈ forbidden, (c, true) ∈ t) := by
+  refine ⟨_, rfl, by decide, by decide⟩
+
+/-- the length limits: a part whose normalised form has `n` bytes is accepted by the real `New`
+and `With…` exactly when the model's bounds say so (`n ≤ maxPart`, and `1 ≤ n` for the
+domainpart), probed at 0, 1, 2 and on both sides of 1023 / 1024 -/
 theorem C11_gen_limits :
-    Generated.C11.localChecksLimits = some [s!">{maxPart}"] ∧
-    Generated.C11.resourceChecksLimits = some [s!">{maxPart}"] ∧
-    Generated.C11.normalizeDomainpartLimits = some [">1", "<1", s!">{maxPart}"] := by decide
+    Generated.C11.partLenProbe = some (partLenTable [0, 1, 2, 1022, 1023, 1024, 1025, 2047]) := by decide
 
 /-! ### Parsing is idempotent: the string form of a returned address parses to it -/
 
